@@ -583,22 +583,21 @@ impl Inner {
                 let filename = entry.file_name();
                 // if the filename is not a UTF-8 string, skip it.
                 let filename = filename.to_str()?;
+                // The appender's own files are named `prefix.date.suffix` (see
+                // `join_date`). A file that merely starts with the prefix and
+                // ends with the suffix -- `app-audit.log` next to `app.<date>.log`
+                // -- belongs to somebody else: what is left between `prefix.`
+                // and `.suffix` has to be a date in this appender's format.
+                let mut date_part = filename;
                 if let Some(prefix) = &self.log_filename_prefix {
-                    if !filename.starts_with(prefix) {
-                        return None;
-                    }
+                    date_part = date_part.strip_prefix(prefix.as_str())?.strip_prefix('.')?;
                 }
 
                 if let Some(suffix) = &self.log_filename_suffix {
-                    if !filename.ends_with(suffix) {
-                        return None;
-                    }
+                    date_part = date_part.strip_suffix(suffix.as_str())?.strip_suffix('.')?;
                 }
 
-                if self.log_filename_prefix.is_none()
-                    && self.log_filename_suffix.is_none()
-                    && Date::parse(filename, &self.date_format).is_err()
-                {
+                if Date::parse(date_part, &self.date_format).is_err() {
                     return None;
                 }
 
